@@ -20,6 +20,20 @@ def _init():
     import contracts
     _G["P"] = Program()
     _G["S"] = contracts.build_spec()
+    install_param_types(_G["P"], _G["S"])
+
+
+def install_param_types(P, S):
+    """let the syntactic write-closure use the parameter classes declared in contracts"""
+    def param_types(fi):
+        c = S.contracts.get(fi.qualname)
+        out = {}
+        if c is not None:
+            for p, t in c.types.items():
+                if isinstance(t, str) and t.startswith("obj:") and "|" not in t:
+                    out[p] = t[4:]
+        return out
+    P.param_types = param_types
 
 
 def _work(job):
